@@ -29,3 +29,38 @@ def vec_fr_bytes(vals):
 
 def vec_u8_bytes(bs):
     return le(len(bs), 8) + bytes(bs)
+
+
+def neighbours(seqs, rng, n, min_tokens=2, valid=None):
+    """history sequences for streams of PURE one-line operations: `[L, L', L]` where L' is L with one token (or one element of a
+    comma-separated token) taken from another line of the same operation and shape. Model and specification evaluate each line
+    on its own, so any dependence of the implementation on what it evaluated before (a memo keyed on too little, a reused
+    buffer, a stale static) shows as a difference on the third or second line."""
+    singles = [s[0] for s in seqs if len(s) == 1]
+    by_shape = {}
+    for l in singles:
+        w = l.split(" ")
+        by_shape.setdefault((w[0], len(w)), []).append(w)
+    out = []
+    shapes = [k for k, v in by_shape.items() if len(v) >= 2 and k[1] >= min_tokens]
+    if not shapes:
+        return out
+    for _ in range(n):
+        k = rng.choice(shapes)
+        a, b = rng.sample(by_shape[k], 2)
+        js = [j for j in range(1, k[1]) if a[j] != b[j]]
+        if not js:
+            continue
+        j = rng.choice(js)
+        v = list(a)
+        if "," in a[j] and "," in b[j] and rng.random() < 0.5:
+            ea, eb = a[j].split(","), b[j].split(",")
+            i = rng.randrange(min(len(ea), len(eb)))
+            ea[i] = eb[i]
+            v[j] = ",".join(ea)
+        else:
+            v[j] = b[j]
+        if v == a or (valid is not None and not valid(" ".join(v))):
+            continue
+        out.append([" ".join(a), " ".join(v), " ".join(a)])
+    return out
